@@ -26,6 +26,7 @@ type PropSpec struct {
 	Assumptions []string
 	StepKeys   []string // counters that measure logical steps
 	Exhaustive string   // which dimensions are enumerated completely per case
+	RestartEvery int    // start a fresh worker process after this many runs (0 = never)
 }
 
 func (s *PropSpec) Runs(tier string) (int, time.Duration) {
@@ -54,21 +55,21 @@ var commonAssumptions = []string{
 
 var specs = map[string]*PropSpec{
 	"C07": {
-		Level: "exploration", QuickRuns: 40000, ThorRuns: 1200000, QuickCap: 150 * time.Second, ThorCap: 25 * time.Minute, QuickWD: 10000, ThorWD: 30000,
+		Level: "exploration", QuickRuns: 40000, ThorRuns: 1200000, QuickCap: 150 * time.Second, ThorCap: 25 * time.Minute, QuickWD: 20000, ThorWD: 40000,
 		Rule: "one run = one generated CBE/CTE document after 0-4 storage faults (bit/byte flips, zeroed/duplicated ranges, truncation, misdirected or inserted bytes, overwritten length fields, garbage, empty) or a deep-nesting document, fed to every decode/unmarshal entry point that accepts it (from memory and through a SimReader delivery plan; occasionally to the other format's entry points) with a drawn template (nil, typed, unsupported kinds) and configuration, plus four marshal entry points on a drawn Go value (supported or containing chan/func/complex/unsafe.Pointer). Oracle: call returns within the watchdog, no panic escapes, the memory-capped worker stays alive. Non-trivial = the document was faulted or deep, or delivery was through a drawn reader plan, or a marshal call; distinct = hash of (document, entry, template, plan | value type, entry, config)",
 		Stubs: []string{"SimReader", "SimWriter (io.Writer and io.Writer+io.StringWriter flavours)", "SimDisk storage-fault model"}, Real: commonReal,
 		StepKeys: []string{"reader_calls", "writer_calls"},
 		Assumptions: []string{"watchdog is wall-clock: 10 s (quick) / 30 s (thorough) per library call whose normal cost is < 10 ms; worker address space capped at 3 GiB"},
 	},
 	"C08": {
-		Level: "exploration", QuickRuns: 30000, ThorRuns: 1000000, QuickCap: 150 * time.Second, ThorCap: 25 * time.Minute, QuickWD: 10000, ThorWD: 30000,
+		Level: "exploration", QuickRuns: 30000, ThorRuns: 1000000, QuickCap: 150 * time.Second, ThorCap: 25 * time.Minute, QuickWD: 20000, ThorWD: 40000,
 		Rule: "one run = one measured decode: a document from an adversarial family - a short CBE document built around one length-carrying header (string/typed/bit/uint8 array, resource id, media type length, media data, custom type, big-integer byte count, identifier lengths, chains of continued zero-length chunks) announcing 2^8..2^62 while delivering < 24 bytes; a generated document whose known length fields were overwritten in storage; a container run of 100-2500 levels; a growing benign family - x entry point (decode/unmarshal, reader or from memory) x MaxArraySizeBytes in {64, 1Ki, 64Ki, 1Mi, default} x rules on/off x template. Measured: runtime.MemStats.TotalAlloc around exactly that call in an otherwise idle, address-space-capped worker. Oracle: alloc <= 2*base + 4 MiB + K*len(doc) + 8*MaxArraySizeBytes(when rules are on), base = the same entry point on a minimal document measured in the same process, K = 4096 (CBE) / 16384 (CTE), K validated at worker start by a calibration that requires benign families to sit 10x below the budget (else exit 2); plus the work-step bound reader calls + events <= 8*len+64. Non-trivial = corrupted, adversarial or container-run document; distinct = hash of (document, entry, config, template)",
 		Stubs: []string{"SimDisk storage-fault model (length-field aware)", "SimReader"}, Real: commonReal,
 		StepKeys:    []string{"work_steps", "measured_decodes"},
 		Assumptions: []string{"the CPU-time clause of the property is NOT decided (deterministic simulation does not measure CPU seconds); the work-step bound only catches re-reading and event amplification", "the bound is read in its weaker grouping: fixed multiple of (length + maximum array size)"},
 	},
 	"C09": {
-		Level: "fault_enumeration", QuickRuns: 5000, ThorRuns: 150000, QuickCap: 150 * time.Second, ThorCap: 25 * time.Minute, QuickWD: 10000, ThorWD: 30000,
+		Level: "fault_enumeration", QuickRuns: 5000, ThorRuns: 150000, QuickCap: 150 * time.Second, ThorCap: 25 * time.Minute, QuickWD: 20000, ThorWD: 40000,
 		Rule: "one run = one valid document (CBE: any top-level object, no trailing padding; CTE: top-level container ending with its closing delimiter), either the real encoder's output for a generated rules-valid event stream or the real marshaler's output for a generated Go value. Crash point = clean EOF after byte k, enumerated for EVERY k in 0<k<len(doc), x {UnmarshalFrom*Document, Unmarshal* through a SimReader that ends at k under a drawn delivery plan} x {untyped template, template of the marshaled value's type}. Oracle per cut: err != nil; partial value is a prefix of the value the complete document yields (shared Prefix relation); for event-stream documents with the untyped template, completeness against the event-nesting model built from recorded encoder offsets (every completely delivered list element / map entry on the path to the cut is present and equal to the full value's). Every evaluation is a fault (non-trivial); distinct = hash of (document, template, cut, entry)",
 		Stubs: []string{"SimReader with cut point"}, Real: commonReal,
 		StepKeys:   []string{"reader_calls"},
@@ -76,40 +77,40 @@ var specs = map[string]*PropSpec{
 		Assumptions: []string{"rule enforcement stays enabled (Marshal.EnforceRules=true): with rule checks disabled by the caller nothing is meant to notice a structurally incomplete document", "the zero value of a template type counts as 'nothing decoded'; typed arrays may be element-wise prefixes; strings and other leaves are atomic"},
 	},
 	"C11": {
-		Level: "exploration", QuickRuns: 40000, ThorRuns: 1500000, QuickCap: 150 * time.Second, ThorCap: 25 * time.Minute, QuickWD: 10000, ThorWD: 30000,
+		Level: "exploration", QuickRuns: 40000, ThorRuns: 1500000, QuickCap: 150 * time.Second, ThorCap: 25 * time.Minute, QuickWD: 20000, ThorWD: 40000,
 		Rule: "one run = one array (every array type, string-like kinds with 1-4 byte characters, media, custom text/binary) placed at top level / in a list / as map value / as map key, delivered to a fresh validator under many flush schedules: one chunk whole; every single split point (payload <= 64 bytes); every two-point split (<= 24 bytes); drawn multi-chunk schedules with splits inside elements and characters; a zero-length chunk in every position; then drawn fault schedules (under/over delivery, missing final chunk, chunk ending inside a character, invalid UTF-8 byte, data after the final chunk, wrong chunk header, invalid media type) and the whole-array event forms. Oracle: verdict equals the reference acceptor written from the property statement (per chunk: received bytes == declared bytes; last chunk final; string-like chunk bytes valid UTF-8); on accept the forwarded bytes equal the delivered bytes. Non-trivial = a fault was injected or the data was split over more than one data event; distinct = hash of (array, position, schedule, fault)",
 		Stubs: []string{"Fragmenter (producer-side flush schedule)", "recording next receiver"}, Real: []string{"rules.RulesEventReceiver and rules.Context (array/chunk/UTF-8 rules)", "internal/chars"},
 		StepKeys:   []string{"data_events"},
 		Exhaustive: "single split points (payload <= 64 bytes) and two-point splits (<= 24 bytes) of the one-chunk form; zero-length chunk positions of a drawn chunking",
 	},
 	"C16": {
-		Level: "exploration", QuickRuns: 24000, ThorRuns: 800000, QuickCap: 150 * time.Second, ThorCap: 25 * time.Minute, QuickWD: 10000, ThorWD: 30000,
+		Level: "exploration", QuickRuns: 24000, ThorRuns: 800000, QuickCap: 150 * time.Second, ThorCap: 25 * time.Minute, QuickWD: 20000, ThorWD: 40000,
 		Rule: "one run = one long-lived instance (CBE/CTE marshaler, unmarshaler, encoder, decoder incl. universal, or rules validator with Reset) receiving a drawn history of 2-6 (thorough: 2-12) operations: valid values/documents/streams; unsupported-kind values (alone, nested, behind an interface, the same value repeated); corrupted or truncated documents; limit violations under small drawn limits (incl. cumulative size over MaxDocumentSizeBytes); an I/O fault at a drawn point inside the operation; a producer abort after a drawn event followed by reset. Reference model per operation: a FRESH instance with the same configuration and identical simulated reader/writer plans; compared: bytes written (incl. the prefix before a failure), events forwarded, value, err==nil, rejecting event index; a hang of the reused instance is a deadlock/livelock violation. Non-trivial = any operation after the first; distinct = hash of (instance, config, history so far)",
 		Stubs: []string{"SimReader/SimWriter with fault plans", "producer abort (event-stream cut)", "recording receiver"}, Real: commonReal,
 		StepKeys: []string{"operations", "reader_calls", "writer_calls"},
 	},
 	"C17": {
-		Level: "exploration", Race: true, QuickRuns: 3000, ThorRuns: 100000, QuickCap: 150 * time.Second, ThorCap: 28 * time.Minute, QuickWD: 20000, ThorWD: 40000,
+		Level: "exploration", Race: true, RestartEvery: 60, QuickRuns: 3000, ThorRuns: 100000, QuickCap: 150 * time.Second, ThorCap: 28 * time.Minute, QuickWD: 20000, ThorWD: 40000,
 		Rule: "one run = one seeded schedule of 2-6 simulated caller threads x 1-3 operations each (marshal via ce.Marshal* or a shared iterator.Session, unmarshal via ce.Unmarshal* or a shared builder.Session, decode, validate) on 1-2 drawn value types that no session has seen before (struct/slice/map/pointer/recursive/unsupported kinds), with sharing mode (package-level only / iterator.Session / builder.Session / both; optionally the same input object marshaled by several threads) and scheduler bias (uniform, sticky, switch-at-install, round-robin, starvation) drawn per run. The tape picks the next thread at every yield point (operation boundary, reader/writer call, event, type-cache hook site). Invariants: no race-detector report with a library/dependency frame during the schedule (worker built with -race; thread hand-off via raw pipe syscalls so the detector sees only the library's own synchronisation); no deadlock/livelock (real blocking detected from goroutine state); each call's bytes/value/events/err==nil equal the same call run alone on fresh instances and sessions after the join. Non-trivial = the schedule has more steps than threads; distinct = distinct hashes of the (thread, site) sequence, i.e. distinct interleavings",
 		Stubs: []string{"thread scheduler (sched: raw-pipe hand-off, quiescence by goroutine-state inspection)", "SimReader/SimWriter"}, Real: append([]string{"sync.Map/WaitGroup type-cache protocols in iterator.Session and builder.Session (real blocking)", "Go race detector as invariant monitor"}, commonReal...),
 		StepKeys: []string{"scheduler_steps", "operations"},
 		Assumptions: []string{"schedules interleave at yield points (seam calls, events, hook sites), not at every memory access; races are still detected at access granularity on each explored schedule", "GOMAXPROCS does not influence the outcome: one simulated thread runs at a time (determinism self-test)"},
 	},
 	"C23": {
-		Level: "exploration", QuickRuns: 60000, ThorRuns: 1500000, QuickCap: 150 * time.Second, ThorCap: 25 * time.Minute, QuickWD: 10000, ThorWD: 30000,
+		Level: "exploration", QuickRuns: 60000, ThorRuns: 1500000, QuickCap: 150 * time.Second, ThorCap: 25 * time.Minute, QuickWD: 20000, ThorWD: 40000,
 		Rule: "one run = one generated rules-valid event stream (array-heavy) reduced to chunking-independent items; reference = every array delivered as one whole-array event to a fresh CTE encoder (optionally behind the real validator). Variants of the same data: one chunk + one data event; drawn re-chunkings at legal chunk boundaries with each chunk's bytes split at drawn positions (element-aligned in half of the variants, arbitrary - inside elements and multi-byte characters - in the other half), zero-length chunks; one byte per data event. Oracle: output text byte-identical to the reference. By-product for the second sentence: the reference text decodes and the decoded events encode to the same text. Non-trivial = the variant differs from the one-chunk/one-event delivery; distinct = hash of (stream, variant events)",
 		Stubs: []string{"Fragmenter (producer-side flush schedule)", "SimWriter"}, Real: []string{"cte encoder (encoder_array, encoder_context, decorators, writer)", "rules validator (when in front)", "cte decoder/parser (by-product)"},
 		StepKeys: []string{"data_events"},
 	},
 	"C29": {
-		Level: "fault_enumeration", QuickRuns: 6000, ThorRuns: 120000, QuickCap: 150 * time.Second, ThorCap: 25 * time.Minute, QuickWD: 10000, ThorWD: 30000,
+		Level: "fault_enumeration", QuickRuns: 6000, ThorRuns: 120000, QuickCap: 150 * time.Second, ThorCap: 25 * time.Minute, QuickWD: 20000, ThorWD: 40000,
 		Rule: "one run = one generated Go value (marshal), document (unmarshal/decode through a reader) or event stream (low-level encoder API) x format x configuration. After a fault-free control, every position of a single fault is enumerated: writer - fail the j-th call for every j the control made (+1 that never fires), as (0,err) and as short write+err, and disk-full at every byte count 0..len(output), for both writer flavours (io.Writer only, io.Writer+io.StringWriter); reader - a non-EOF error at every byte offset 0..len(doc) as (0,err), as (m>0,err) and transient, under three delivery plans; then drawn two-fault sequences. Oracle: a fired fault => non-nil error (encoder event: does not return normally), no escaped panic; no fired fault => same success as the control. Non-trivial = a fault actually fired; distinct = hash of (case, flavour/plan, fault)",
 		Stubs: []string{"SimReader with fault plan", "SimWriter with fault plan (two flavours)"}, Real: commonReal,
 		StepKeys:   []string{"reader_calls", "writer_calls"},
 		Exhaustive: "single write-failure positions (call index and byte count, both writer flavours), single read-failure offsets (three kinds); byte positions are strided above 300-400 bytes in the quick tier only",
 	},
 	"C28": {
-		Level: "exploration", QuickRuns: 2400, ThorRuns: 120000, QuickCap: 150 * time.Second, ThorCap: 25 * time.Minute, QuickWD: 10000, ThorWD: 30000,
+		Level: "exploration", QuickRuns: 2400, ThorRuns: 120000, QuickCap: 150 * time.Second, ThorCap: 25 * time.Minute, QuickWD: 20000, ThorWD: 40000,
 		Rule: "one run = one generated document (valid, or corrupted by 1-2 storage faults) x one reader entry point x config/template; evaluated under drawn delivery plans and, for small documents, every single split offset, every single (0,nil) position, data+EOF and 1-byte delivery; reference = from-memory twin on fresh instances. A case is non-trivial if the reader actually produced a short read, a (0,nil) read or data together with EOF; distinct = distinct (document, entry, config, plan) hashes",
 		Stubs: []string{"SimReader (io.Reader only)"}, Real: commonReal,
 		StepKeys:   []string{"reader_calls"},
@@ -118,7 +119,7 @@ var specs = map[string]*PropSpec{
 }
 
 func writeEvidence(agg *aggregate, batchWall, wall time.Duration, planned, nworkers, nviol int, knownLines []string) {
-	os.MkdirAll(filepath.Join(verifDir, "evidence"), 0o755)
+	os.MkdirAll(evidenceDir(), 0o755)
 	faults := map[string]int64{}
 	probes := map[string]int64{}
 	steps := map[string]int64{}
@@ -202,7 +203,7 @@ func writeEvidence(agg *aggregate, batchWall, wall time.Duration, planned, nwork
 		"violations":  nviol,
 	}
 	b, _ := json.MarshalIndent(ev, "", " ")
-	if err := os.WriteFile(filepath.Join(verifDir, "evidence", prop+".json"), b, 0o644); err != nil {
+	if err := os.WriteFile(filepath.Join(evidenceDir(), prop+".json"), b, 0o644); err != nil {
 		infraFail("cannot write evidence: %v", err)
 	}
 }
@@ -214,6 +215,13 @@ func max1(n int) int {
 	return n
 }
 
-var expectedProbes = map[string][]string{}
+// rare states every thorough run is expected to reach; one stuck at zero is
+// printed in the evidence as probes_at_zero: the workload must change
+var expectedProbes = map[string][]string{
+	"C08": {"allocation_within_10x_of_budget"},
+	"C11": {"split_inside_character", "zero_length_chunk", "chunk_boundary_inside_character_fault_rejected"},
+	"C16": {"operation_after_a_failed_one"},
+	"C17": {"placeholder_installed", "placeholder_entered", "LoadOrStore_lost_the_race", "thread_blocked_in_library_sync", "blocked_thread_released_later", "same_object_marshaled_by_several_threads"},
+}
 
 func (s *PropSpec) expectedProbes() []string { return expectedProbes[prop] }
